@@ -4944,8 +4944,14 @@ class TLSConnection(TLSRecordLayer):
         expect_ccs_message = True
         # If we use SessionTicket resumption on client side, there are multiple
         # situations where the server has the option to send new ticket
+        # only a server may send a NewSessionTicket
+        if self._client:
+            expected_types = (ContentType.handshake,
+                              ContentType.change_cipher_spec)
+        else:
+            expected_types = ContentType.change_cipher_spec
         for result in self._getMsg(
-                (ContentType.handshake, ContentType.change_cipher_spec),
+                expected_types,
                 HandshakeType.new_session_ticket):
             if result in (0, 1):
                 yield result
